@@ -366,11 +366,21 @@ def _register5(op, g):
             import io as _io
             buf = []
             glb = {"__name__": "__xv__", "print": lambda *x: buf.append(" ".join(str(i) for i in x))}
+            # the print STATEMENT of Python 2 goes to sys.stdout, which carries this worker's protocol
             try:
-                exec(co, glb)
-                out["ran"] = "ok"
-            except BaseException as e:
-                out["ran"] = type(e).__name__
+                from StringIO import StringIO as _SIO
+            except ImportError:
+                from io import StringIO as _SIO
+            saved_out, sys.stdout = sys.stdout, _SIO()
+            try:
+                try:
+                    exec(co, glb)
+                    out["ran"] = "ok"
+                except BaseException as e:
+                    out["ran"] = type(e).__name__
+                buf += [ln for ln in sys.stdout.getvalue().split("\n") if ln]
+            finally:
+                sys.stdout = saved_out
             out["printed"] = buf[:20]
         return out
 
